@@ -335,20 +335,30 @@ Definition ttype_of_nibble (z : Z) : res ttype :=
   | Some ct => match ttype_of_ctype ct with Some t => Ok t | None => Err EInvalidData end
   end.
 
-(* read_list_begin / read_set_begin: (element type, size as usize) *)
+(* rw_ext::checked_container_size: the i32 size must be non-negative and cannot exceed
+   the bytes that remain after the header *)
+Definition check_size (n : Z) (s : rst) : res Z :=
+  if n <? 0 then Err ENegativeSize
+  else if Z.of_nat (length (rbuf s)) <? n then Err ESizeLimit
+  else Ok n.
+
+(* read_list_begin / read_set_begin: (element type, size) *)
 Definition r_coll_begin (p : pk) : rm (ttype * Z) :=
   match p with
   | PCompact => fun s =>
       let* (h, s) := r_byte s in
       let* et := ttype_of_nibble (h mod 16) in
       let cnt := h / 16 in
-      if negb (cnt =? 15) then Ok ((et, cnt), s)
+      if negb (cnt =? 15) then
+        let* n := check_size cnt s in Ok ((et, n), s)
       else let* (n, s) := r_varint maxsize_32 s in
-           Ok ((et, wrap_u 64 (wrap_s 32 n)), s)
+           let* n := check_size (wrap_s 32 n) s in
+           Ok ((et, n), s)
   | _ => fun s =>
       let* (et, s) := r_ttype s in
       let* (n, s) := r_i32 p s in
-      Ok ((et, wrap_u 64 n), s)
+      let* n := check_size n s in
+      Ok ((et, n), s)
   end.
 
 Definition r_map_begin (p : pk) : rm (ttype * ttype * Z) :=
@@ -361,10 +371,12 @@ Definition r_map_begin (p : pk) : rm (ttype * ttype * Z) :=
         let* (h, s) := r_byte s in
         let* kt := ttype_of_nibble (h / 16) in
         let* vt := ttype_of_nibble (h mod 16) in
-        Ok ((kt, vt, wrap_u 64 cnt), s)
+        let* n := check_size cnt s in
+        Ok ((kt, vt, n), s)
   | _ => fun s =>
       let* (kt, s) := r_ttype s in
       let* (vt, s) := r_ttype s in
       let* (n, s) := r_i32 p s in
-      Ok ((kt, vt, wrap_u 64 n), s)
+      let* n := check_size n s in
+      Ok ((kt, vt, n), s)
   end.
